@@ -54,6 +54,10 @@ def run(which, tier):
         meta = json.load(open(os.path.join(d, "meta.json")))
         if which.lower() != "all" and meta["property"].upper() != which.upper():
             continue
+        if meta.get("retired"):
+            # a later repair of /repo in the same lines made the change harmless or inapplicable; kept for the record only
+            out.append({"seed": os.path.basename(d), "property": meta["property"], "status": "retired", "detail": meta["retired"]})
+            continue
         todo.append(d)
     # the obligations phase of each check is serialised by the build lock; the exploration phases run side by side
     jobs = max(1, int(os.environ.get("VERIF_SELFTEST_JOBS", "6")))
@@ -78,6 +82,6 @@ def run(which, tier):
     for r in out:
         old[r["seed"]] = r
     allr = sorted(old.values(), key=lambda r: r["seed"])
-    json.dump({"tier": tier, "caught": len([r for r in allr if r["status"] == "caught"]), "total": len(allr), "results": allr},
+    json.dump({"tier": tier, "caught": len([r for r in allr if r["status"] == "caught"]), "retired": len([r for r in allr if r["status"] == "retired"]), "total": len(allr), "results": allr},
               open(path, "w"), indent=1)
-    return 0 if all(r["status"] == "caught" for r in out) else 1
+    return 0 if all(r["status"] in ("caught", "retired") for r in out) else 1
